@@ -101,6 +101,43 @@ def premise_calendar_ranges(P):
     return (not bad), (f"violations: {bad}" if bad else "all calendar year ranges inside the cache's validity range; singletons per id")
 
 
+# ------------------------------------------------------------------------------------------------ the Hebrew calculator's own global cache
+@lemma({"year": int, "v": int, "y0": int, "v0": int, "invalid": bool}, budget=90,
+       bounds="_HebrewScripturalCalculator.__get_or_populate_cache, one step from an arbitrary valid slot state: any queried year 1..9999, "
+              "the slot holding either the initial invalid entry or the entry of ANY year with the same cache index (value v0), the entry "
+              "computation abstract (v for the queried year, v0 for the other; 0 <= v < 2**24): the answer is v, the computation runs at "
+              "most once, and the slot afterwards is valid for the queried year with value v")
+def hebrew_cache_step(year, v, y0, v0, invalid):
+    from pyoda_time.calendars._hebrew_scriptural_calculator import _HebrewScripturalCalculator as HS
+    assume(1 <= year <= 9999)
+    assume(1 <= y0 <= 9999)
+    assume(0 <= v < 2 ** 24)
+    assume(0 <= v0 < 2 ** 24)
+    assume(_YearStartCacheEntry._get_cache_index(y0) == _YearStartCacheEntry._get_cache_index(year))
+    if y0 == year:
+        assume(v0 == v)
+    calls = []
+
+    def compute(cls, y):
+        calls.append(y)
+        if y == year:
+            return v
+        if y == y0:
+            return v0
+        raise AssertionError("unexpected year")
+    slot = AnySlot(_YearStartCacheEntry._YearStartCacheEntry__invalid() if invalid else _YearStartCacheEntry(y0, v0))
+    saved = (HS._HebrewScripturalCalculator__compute_cache_entry, HS._HebrewScripturalCalculator__YEAR_CACHE)
+    HS._HebrewScripturalCalculator__compute_cache_entry = classmethod(compute)
+    HS._HebrewScripturalCalculator__YEAR_CACHE = slot
+    try:
+        got = HS._HebrewScripturalCalculator__get_or_populate_cache(year)
+        again = HS._HebrewScripturalCalculator__get_or_populate_cache(year)
+    finally:
+        HS._HebrewScripturalCalculator__compute_cache_entry, HS._HebrewScripturalCalculator__YEAR_CACHE = saved
+    e = slot.entry
+    return got == v and again == v and len(calls) <= 1 and e._is_valid_for_year(year) and e._start_of_year_days == v
+
+
 # ------------------------------------------------------------------------------------------------ zone-interval cache
 def _zonecache(k_index):
     def h(d1, n1, o0, o1, ad, an, bd, bn):
